@@ -54,7 +54,7 @@ def gen(rng, tier):
         for _ in range(n * 2):
             mn, pw, sel = rand_acct(rng)
             line = "%s %s %s %s" % (cmd, mn, pw, sel)
-            g = len(cases)
+            g = rng.getrandbits(48)  # unique per generator round
             # the same case through flags only and through the environment only: must print the same
             add(line, (cmd, "sel:" + sel.split(":")[0], "via:flag"), {"via": {"mnemonic": "flag", "password": "flag", "index": "flag", "path": "flag"}, "pair": g},
                 nt=(sel != "default" or pw != "-"))
